@@ -145,6 +145,11 @@ pub fn run(tier: &str, rec: &Recorder) -> RunOutput {
 }
 
 pub fn replay(case: &str, rec: &Recorder) -> bool {
+    if case.starts_with("L:") {
+        let mut c = Counters::default();
+        crate::large::c18_large("thorough", rec, &mut c);
+        return rec.has_any();
+    }
     let (f, _, _, _, _) = match parse_case(case) {
         Some(x) => x,
         None => return false,
